@@ -268,6 +268,41 @@ def unique_labels(body):
     return fix(body)
 
 
+def noise_statements():
+    arr = ("a", 2, I32)
+    return [("block", [("block", [])]), ("block", []), ("if", cond_true(), ("block", []), None),
+            ("if", cond_false(), ("block", [("block", [])]), ("block", [])), ("block", [("block", [("block", [])])]),
+            ("if", cond_true(), ("block", [("if", cond_false(), ("block", []), None)]), None),
+            ("var", "nz0", arr, ("arr", arr, [X, lit(1)]))]
+
+
+def all_single_noise(body):
+    """Every body obtained by inserting one noise statement at one position of the body or of a nested block."""
+    import copy
+
+    def paths(stmts, prefix, acc):
+        acc.append(prefix)
+        for i, st in enumerate(stmts):
+            if st[0] == "block":
+                paths(st[1], prefix + [i], acc)
+        return acc
+
+    for path in paths(body, [], []):
+        target = body
+        for i in path:
+            target = target[i][1]
+        for pos in range(len(target) + 1):
+            for st in noise_statements():
+                b = copy.deepcopy(body)
+                t = b
+                for i in path:
+                    lst = list(t[i][1])
+                    t[i] = ("block", lst)
+                    t = lst
+                t.insert(pos, st)
+                yield b
+
+
 def insert_noise(rng, body, k=1):
     """Insert k statements that jump nowhere and declare nothing the body uses (nested empty blocks, empty if / if-else,
     an array variable of a fresh name initialised from an array literal) at random places of the body, also inside nested
